@@ -125,8 +125,16 @@ def run_isolated(case, g, tier, res):
         S = gendrive.total(ws)
         eq = And(*[w == ws[0] for w in ws[1:]]) if len(ws) > 1 else True
         for j, i in enumerate(items):
-            c.prove(And(Implies(eq, rec.p[j] * len(ws) == 1), Implies(Not(eq), rec.p[j] * S == ws[j])), "isolated: pick probability follows the weights",
+            def near(a, b, scale):
+                r = a == b
+                if r is True:
+                    return True
+                return And(a - b <= scale * 1e-9, b - a <= scale * 1e-9)  # below what a replay in floating point can see
+
+            c.prove(And(Implies(eq, near(rec.p[j] * len(ws), 1, len(ws))), Implies(Not(eq), near(rec.p[j] * S, ws[j], S))), "isolated: pick probability follows the weights",
                     detail("probability differs from w_i / sum(w) (uniform for equal weights)"))
+            c.prove(Implies(And(Not(eq), ws[j] == 0), rec.p[j] == 0), "isolated: an option of weight zero has probability exactly zero",
+                    detail("zero: an option of weight zero next to positive weights gets a positive probability"))
         c.prove(gendrive.total(list(rec.p)) == 1, "isolated: probabilities sum to 1", detail("probabilities do not sum to 1"))
         c.prove(int(idx) == items[rng.calls[-1].index], "isolated: returned index is the generator's pick", detail("returned index is not the option the generator picked"))
         c.prove(And(*[bd.weight == w for bd, w in zip(bds, w0)]), "isolated: weights untouched", detail("a descriptor weight was modified by the pick"))
@@ -192,6 +200,8 @@ def replay_isolated(rp, gb):
             ref = [1.0 / len(ws)] * len(ws) if all(w == ws[0] for w in ws) else [w / sum(ws) for w in ws]
             if any(abs(a - b) > 1e-9 for a, b in zip(rec.p, ref)):
                 problems.append(f"probabilities {rec.p} differ from {ref}")
+            if any(b == 0 and a != 0 for a, b in zip(rec.p, ref)):
+                problems.append(f"an option of weight zero gets the probability {[a for a, b in zip(rec.p, ref) if b == 0]}")
             if int(idx) != items[rng.calls[-1].index]:
                 problems.append("returned index is not the generator's pick")
     if [float(b.weight) for b in bds] != w0:
